@@ -108,7 +108,7 @@ func runJob(j job, scratch string) result {
 	if j.P != nil {
 		if err := gojs.WriteModule(dirP, "gvprog", j.P); err != nil {
 			res.P = runOut{Err: err.Error(), Class: "setup-error"}
-		} else if js, decls, _, err := compile(dirP, false); err != nil {
+		} else if js, decls, _, err := compile(dirP, true); err != nil {
 			res.P = runOut{Err: err.Error(), Class: "compile-error"}
 		} else {
 			res.PDecls = decls
